@@ -579,11 +579,52 @@ def run_terminated(prog, ctx=None):
     return res
 
 
+def _null_source_stores(prog, g, src_id, ptr_id):
+    """True / False: the region of g behind `!src` stores through the pointer parameter (or hands it to a callee); None when g
+    has no such test"""
+    dom = g.dominators()
+    found = None
+    for bid, b in g.blocks.items():
+        t = b.term
+        if not (t and t.get("cond") is not None and len(b.succ) == 2 and b.succ[0] is not None):
+            continue
+        first = strip(t["cond"], all_casts=True)
+        while first.get("k") == "bin" and first.get("op") in ("||", "&&"):
+            first = strip(first["a"], all_casts=True)
+        if not (first.get("k") == "un" and first.get("op") == "!"):
+            continue
+        v = strip(first["e"], all_casts=True)
+        if not (v.get("k") == "ref" and v["d"].get("id") == src_id):
+            continue
+        region = {x for x in g.blocks if b.succ[0] in dom[x]}
+        stores = False
+        for x in region:
+            for e in g.blocks[x].el:
+                for n in walk_own(e):
+                    if n.get("k") == "bin" and n.get("op", "").endswith("=") and n["op"] not in ("==", "!=", "<=", ">="):
+                        l = strip(n["a"], lvalue_to_rvalue=False)
+                        for m in walk(l):
+                            if m.get("k") == "ref" and m["d"].get("id") == ptr_id:
+                                stores = True
+                    if n.get("k") == "call":
+                        nm = callee_name(n) or ""
+                        if nm in ("memcmp", "strcmp", "strlen"):
+                            continue
+                        for a in n.get("args", []):
+                            if any(m.get("k") == "ref" and m["d"].get("id") == ptr_id for m in walk(a)):
+                                stores = True
+        found = stores if found is None else (found and stores)
+    return found
+
+
 def run_resetsame(prog, ctx=None):
     """RESETSAME: in the branch a setter takes for one property name, resetting (no source) and setting touch the same
     member: the members stored on the `!src` path overlap the members the value path writes or hands to its parser
     (`wld->attr.width` against `&wld->attr`; not `wld->cyc` against `&wld->color`).  A reset that restores the default of
-    another member leaves the named property as it was and changes a property that was not named."""
+    another member leaves the named property as it was and changes a property that was not named.  RESETWRITES: where the
+    branch has no reset of its own and hands the (possibly null) source to a helper together with a pointer into the object,
+    the helper's no-source path stores through that pointer: a helper that only reports whether the member differs from
+    its default leaves a reset without effect."""
     res = Result("RESETSAME")
     for kind in KINDS:
         f = prog.func("mpt_%s_set" % kind)
@@ -647,6 +688,33 @@ def run_resetsame(prog, ctx=None):
                     if v.get("k") == "ref" and v["d"].get("id") == sid and b2.succ[0] is not None:
                         resets |= region(b2.succ[0]) & body
             if not resets:
+                # no reset sub-branch here: the null source goes to a helper together with a pointer into the object; the helper's
+                # own no-source path has to store through that pointer (RESETWRITES)
+                for x in sorted(body):
+                    for e in f.blocks[x].el:
+                        for n in walk_own(e):
+                            if n.get("k") != "call" or not callee_name(n):
+                                continue
+                            args = n.get("args", [])
+                            spos = [j for j, a in enumerate(args) if strip(a, all_casts=True).get("k") == "ref" and strip(a, all_casts=True)["d"].get("id") == sid]
+                            ppos = []
+                            for j, a in enumerate(args):
+                                s2 = strip(a, all_casts=True)
+                                if s2.get("k") == "un" and s2.get("op") == "&":
+                                    p_, root = mem_path(s2["e"])
+                                    if p_ and isinstance(root, dict) and root.get("k") == "ref" and root["d"].get("id") == oid:
+                                        ppos.append((j, p_))
+                            if not spos or not ppos:
+                                continue
+                            for g in prog.resolve_call(f, n):
+                                if g.nocfg or len(g.params) <= max(spos[0], ppos[0][0]):
+                                    continue
+                                verdict = _null_source_stores(prog, g, g.params[spos[0]]["id"], g.params[ppos[0][0]]["id"])
+                                if verdict is None:
+                                    continue
+                                res.ob("mpt_%s_set:%s:reset through %s" % (kind, "/".join(names), g.name), verdict, f, n.get("l", f.line) or f.line,
+                                       "" if verdict else "for property '%s' a null source (reset) is handed to %s with &%s->%s, whose no-source path returns without storing through that pointer: resetting leaves the property as it was" % (
+                                           names[0], g.name, f.params[0].get("n", "obj"), ppos[0][1]))
                 continue
             p_reset, p_set = set(), set()
             for x in body:
